@@ -12,7 +12,7 @@ GLOBAL_SETTINGS = ["ignore_errors", "args_override_self", "dont_delimit_trailing
                    "propagate_version"]
 LOCAL_SETTINGS = ["next_line_help", "arg_required_else_help", "allow_missing_positional", "subcommand_required",
                   "allow_external_subcommands", "args_conflicts_with_subcommands",
-                  "subcommand_precedence_over_arg", "subcommand_negates_reqs"]
+                  "subcommand_precedence_over_arg", "subcommand_negates_reqs", "no_binary_name", "multicall"]
 SETTINGS = GLOBAL_SETTINGS + LOCAL_SETTINGS
 
 
@@ -510,6 +510,15 @@ def f_tree():
     add("near-misses", cmd("p", [arg("color", None, "color", vp=vp_possible("always", "never")), arg("verbose", None, "verbose", action="SetTrue")],
                            subs=[cmd("build", [arg("release", None, "release", action="SetTrue")]), cmd("check", aliases=["chk"])]),
         extra=["--colour", "--color=alwys", "--verbos", "--releas", "biuld", "chek", "--", "build", "--color=never"])
+    # what becomes of argv[0]
+    applets = [cmd("true"), cmd("ls", [arg("l", "l", "long", action="SetTrue"), arg("path", num=(0, None))], aliases=["dir"]),
+               cmd("box", subs=[cmd("inner", [arg("i", "i", action="SetTrue")])])]
+    add("multicall", cmd("busybox", subs=applets, multicall=True),
+        extra=["ls", "/bin/ls", "ls.exe", "a/b/true", ".ls", "dir/", "busybox", b"\xffls", "", "-l", "--long", "box", "inner", "-i", "help", "--help"])
+    add("multicall-self-applet", cmd("hostname", subs=[cmd("hostname", [arg("f", "f", action="SetTrue")]), cmd("dnsdomainname")], multicall=True),
+        extra=["hostname", "dnsdomainname", "./hostname", "-f", "x"])
+    add("no-binary-name", cmd("p", [arg("f", "f", "flag", action="SetTrue"), arg("p1", num=(0, None))], subs=[leaf], no_binary_name=True),
+        extra=["p", "leaf", "-f"])
     add("sub-with-positional-parent", cmd("p", [arg("p1"), arg("f", "f", action="SetTrue")], subs=[leaf]))
     return D
 
